@@ -146,6 +146,7 @@ type H2End struct {
 	OnFrameSize func(ev H2Ev, max int)
 	Held        bool
 	splits      int
+	peerMaxFrame int // largest frame payload this end may send: the SETTINGS_MAX_FRAME_SIZE it last received (default 16384)
 	// HPACK table-size discipline: after this end lowered SETTINGS_HEADER_TABLE_SIZE and the
 	// change was acknowledged, the next header block must start with a dynamic table size update
 	// that respects it (RFC 7541 4.2), unless one has been seen since the SETTINGS were sent.
@@ -194,6 +195,13 @@ func (e *H2End) streamWin(id uint32) int {
 		e.sendStream[id] = w
 	}
 	return w
+}
+
+func (e *H2End) maxSendFrame() int {
+	if e.peerMaxFrame == 0 {
+		return 16384
+	}
+	return e.peerMaxFrame
 }
 
 // enabled reports whether the head operation of the script can be performed now.
@@ -309,6 +317,9 @@ func (e *H2End) doNext() {
 		avail := e.sendConn
 		if w := e.streamWin(op.Stream); w < avail {
 			avail = w
+		}
+		if mf := e.maxSendFrame(); mf < avail && len(op.Data) > mf {
+			avail = mf // a well-behaved sender never exceeds the peer's maximum frame size
 		}
 		if len(op.Data) > avail && avail > 0 {
 			// send the part that fits; the rest stays at the head of the script
@@ -611,6 +622,8 @@ func (e *H2End) onFrame(f http2.Frame, ln int) {
 		f.ForeachSetting(func(s http2.Setting) error {
 			ss = append(ss, s)
 			switch s.ID {
+			case http2.SettingMaxFrameSize:
+				e.peerMaxFrame = int(s.Val)
 			case http2.SettingInitialWindowSize:
 				d := int(s.Val) - e.peerInitWin
 				e.peerInitWin = int(s.Val)
